@@ -104,6 +104,19 @@ TNew == IsEvent("New") /\ LET e == Log[l] IN
           /\ ChkS("empty", e.empty)
           /\ hist' = (e.id :> EmptyHist) @@ hist /\ UNCHANGED blob
           /\ sh' = ShSet((e.id :> ShInit(e.type, e.full, e.lgk)) @@ sh)
+\* a sketch deserialized from a coupon-list image written by hand following the documented layout (coupon values up to 63)
+TCraft == IsEvent("Craft") /\ LET e == Log[l] IN
+          /\ NewFed(e.dst, e.lgk, e.type, FALSE, e.cs, e.r.mode, e.lgk > DenseMaxLgK)
+          /\ hist' = (e.dst :> SeqFold(HAppend, EmptyHist, e.cs)) @@ hist
+          /\ sh' = ShSet((e.dst :> IF e.lgk <= ShadowMaxLgK THEN SeqFold(LAMBDA d, c : M!DStep(d, e.lgk, c), M!DInit(e.type, FALSE, e.lgk), e.cs) ELSE NoSh) @@ sh)
+          /\ ProjOK(e.r, obj'[e.dst])
+          /\ (CheckDesign /\ Has(e.r, "ph")) => PhysOK(e.r.ph, sh'[e.dst], e.lgk, 0)
+          /\ UNCHANGED blob
+\* get_lower_bound / get_upper_bound with a number of standard deviations outside 1..3 must be refused (C06: invalid arguments)
+TBadArg == IsEvent("BadArg") /\ LET e == Log[l] IN
+          /\ Has(e, "id")
+          /\ Chk("C06:invalid-num-std-dev-refused", e.threw)
+          /\ UNCHANGED <<obj, hist, blob, sh>>
 TUpdate == IsEvent("Update") /\ LET e == Log[l]  c == <<e.c[1], e.c[2]>>  ids == ToSet(e.ids) IN
           /\ UpdateAll(e.ids, c, e.m)
           /\ \A n \in DOMAIN e.ids : LET o == obj'[e.ids[n]] IN
@@ -176,7 +189,7 @@ TDeser == IsEvent("Deser") /\ LET e == Log[l]  b == blob[e.blob] IN
           /\ (CheckDesign /\ Has(e.r, "ph")) => PhysOK(e.r.ph, b.sh, b.st.lgK, 0)
 
 TInit == obj = <<>> /\ l = 1 /\ hist = <<>> /\ blob = <<>> /\ sh = <<>>
-SkNext == TNew \/ TUpdate \/ TFeed \/ TUpdateIgnored \/ TObs \/ TConvert \/ TCopy \/ TReset \/ TSer \/ TDeser
+SkNext == TNew \/ TCraft \/ TBadArg \/ TUpdate \/ TFeed \/ TUpdateIgnored \/ TObs \/ TConvert \/ TCopy \/ TReset \/ TSer \/ TDeser
 TNext == TBegin \/ SkNext
 TSpec == TInit /\ [][TNext]_tvars
 \* cheap state invariant for validation runs (the full Inv recomputes SlotMax and is model-checked in MC_Hll instead)
